@@ -837,6 +837,13 @@ impl<TokenIter: Iterator<Item = Result<Token>>> Parser<TokenIter> {
     }
 
     fn transform_formals(args: Datum) -> Result<ParameterFormals> {
+        let formals = Self::transform_formals_unchecked(args)?;
+        // every parameter must be an identifier: reject nested lists such as ((a) b)
+        formals.clone().split()?;
+        Ok(formals)
+    }
+
+    fn transform_formals_unchecked(args: Datum) -> Result<ParameterFormals> {
         let location = args.location;
         Ok(match args {
             Datum {
